@@ -30,6 +30,7 @@ def addresses(seed, aw):
     out["B5"] = out["T5"][:4] + bytes([out["T5"][4] ^ 0x5A])
     if aw < 5:
         out["AS"] = out["AS"][:aw]  # an address exactly as long as the address width
+        out["SUB"] = out["T5"][1:1 + aw]  # aw bytes that occur INSIDE the TX address buffer (at offset 1)
     else:
         del out["AS"]
     return out
@@ -41,11 +42,15 @@ def alphabet(cls_name, aw):
     for p in (0, 1):
         for n in rx_names:
             ops.append(("orx", p, n))
+    if aw < 5:
+        ops.append(("orx", 0, "SUB"))
     ops += [("crx", 0), ("crx", 1)]
     ops += [("otx", "T5"), ("otx", "U5"), ("otx", "A5")]
     if cls_name != "lite":  # rf24_lite has no auto_ack attribute (always on)
         ops += [("aa", True), ("aa", False), ("aa", 0x3E)]
+        ops += [("saa", True), ("saa", False)]  # the per-pipe function: set_auto_ack(x, 0)
     ops += [("listen", True), ("listen", False)]
+    ops += [("tx1",)]  # one unacknowledged transmission (leaves CE high in TX mode); offered in TX mode only
     return ops
 
 
@@ -59,6 +64,10 @@ def op_str(op):
         return "open_tx_pipe(%s)" % op[1]
     if k == "aa":
         return "auto_ack=%s" % (hex(op[1]) if not isinstance(op[1], bool) else op[1])
+    if k == "saa":
+        return "set_auto_ack(%s,0)" % op[1]
+    if k == "tx1":
+        return "send(1 byte, ask_no_ack=True)"
     return "listen=%s" % op[1]
 
 
@@ -142,6 +151,11 @@ def step(st, op, ctx):
         elif kind == "aa":
             drv.auto_ack = op[1]
             m.auto_ack(op[1])
+        elif kind == "saa":
+            drv.set_auto_ack(op[1], 0)
+            m.auto_ack(bool(op[1]))
+        elif kind == "tx1":
+            drv.send(b"\x01", ask_no_ack=True)
         elif kind == "listen":
             drv.listen = op[1]
             m.listen(op[1])
@@ -277,13 +291,19 @@ def w_bfs(item, rep):
             rep.sample({"part": part, "ops": [op_str(o) for o in hist[1:] + [op]], "outcome": outcome})
 
     s0 = rep.states
-    done = bfs([(mk_state(cls_name, aw), "init")], lambda st: ops, apply, canon, depth, rep)
+    def alpha(st):
+        radio = st[2]
+        if radio.pwr() and not radio.prx():
+            return ops
+        return [o for o in ops if o[0] != "tx1"]
+    done = bfs([(mk_state(cls_name, aw), "init")], alpha, apply, canon, depth, rep)
     rep.part(part, states=rep.states - s0, depth_completed=done, alphabet=len(ops), closed=bool(done < depth))
 
 
 def run_pipe0(tier, seed, rep, cls_name="full", pid=PID, only=None):
     depth = 6 if tier == "quick" else 16  # (the state space closes at depth 12..13: see notes in the evidence)
-    items = [(cls_name, aw, seed, depth, pid) for aw in (5, 4, 3)]
+    # quick: depth 6 for 5-byte addresses, 5 for the (larger) alphabets of address widths 4 and 3
+    items = [(cls_name, aw, seed, depth if (tier != "quick" or aw == 5) else depth - 1, pid) for aw in (5, 4, 3)]
     if only:
         items = [it for it in items if ("aw%d" % it[1]) in only]
     pmap(w_bfs, items, rep)
@@ -292,7 +312,7 @@ def run_pipe0(tier, seed, rep, cls_name="full", pid=PID, only=None):
         rep.notes["closure"] = ("no new state at depth %s for %s: every longer call sequence over this alphabet only revisits "
                                 "explored states, so the result holds for sequences of any length" % (
                                     "/".join(str(rep.parts[k]["depth_completed"]) for k in closed), ", ".join(closed)))
-    return dict(depth=depth, address_lengths=[it[1] for it in items],
+    return dict(depth={("aw%d" % it[1]): it[3] for it in items}, address_lengths=[it[1] for it in items],
                 alphabet={("aw%d" % aw): [op_str(o) for o in alphabet(cls_name, aw)] for aw in (5, 3)})
 
 
